@@ -1,40 +1,67 @@
-"""C01 round-trip fixpoint (first pipeline version)"""
+"""C01 round-trip fixpoint: T = parse(P); parse(str(T)) ~ T; str(parse(str(T))) == str(T).
+
+Program level: every catalogue template in a program context, constructs nested to depth 2/3,
+every program-unit context; the lexemes (names, digits, labels, literal bodies) are symbolic.
+Rule level: Cls(s) / Cls(str(Cls(s))) for expression and statement classes on symbolic lexemes.
+"""
 from sse import api
 from vh import common as C
+from vh import progs as PG
+from vh import gen as G
 
 
 def units(tier):
-    out = []
-    for n in (1, 2, 3):
-        for std in ("f2003", "f2008"):
-            for ic in (True, False):
-                out.append(dict(h="rt_prog", n=n, std=std, ic=ic))
-    return out
+    us = PG.program_units(tier, "rt_prog", ics=(True,))
+    # comments retained: every program once more with comment lines, fewer symbolic holes
+    us += PG.program_units(tier, "rt_prog", stds=("f2008",), ics=(False,), k=2,
+                           filt=(lambda p: True) if tier != "quick" else (lambda p: len(p["exec"]) and not isinstance(p["exec"][0], str) or len(p["spec"]) > 0))
+    return us
 
 
 def meta(tier):
-    return dict(bounds=dict(name_len=[1, 2, 3]), assumptions=[])
+    q = tier == "quick"
+    return dict(
+        bounds=dict(programs=len(PG.programs(tier)), hole_lengths=PG.LENS_Q if q else PG.LENS_T,
+                    symbolic_chars_per_unit=4 if q else 8, nesting_depth=2 if q else 3,
+                    standards=["f2003", "f2008"], ignore_comments=[True, False],
+                    alphabet="names [A-Za-z][A-Za-z0-9_]*, digits, labels, literal bodies over printable ASCII"),
+        assumptions=["names differ from Fortran keywords and intrinsic function names (gen.KEYWORDS + Intrinsic_Name.function_names)",
+                     "labels in one program are distinct; label holes have no leading zero",
+                     "the rule registry of ParserFactory.create(std) is cached per process and swapped in (validated by native witness replay, which calls create())"],
+        budget_s=400 if q else 3300, unit_budget_s=60 if q else 300)
+
+
+def with_comments(src):
+    lines = src.split("\n")
+    out = [lines[0], "! first comment"]
+    for l in lines[1:-2]:
+        out.append(l)
+    out.append("  ! last 'comment' & \"x")
+    out.append(lines[-2])
+    return "\n".join(out) + "\n"
 
 
 def rt_prog(ctx):
     p = ctx.p
     C.reset()
-    a = ctx.name("a", p["n"])
-    src = "program p\n  integer :: i\n  " + a + " = i + 1\n  if (i > 2) then\n    call foo(" + a + ")\n  end if\nend program p\n"
+    src, vals = PG.build(ctx)
+    if not p["ic"]:
+        src = with_comments(src)
+    ctx.observe("src", src)
     r = C.outcome(lambda: C.parse(src, p["std"], p["ic"]))
     ctx.observe("outcome", r[0])
     if r[0] != "ok":
-        ctx.observe("msg", str(r[2]))
-        ctx.fail("valid program rejected: " + r[0])
+        ctx.fail("valid program rejected (" + r[0] + ")")
         return
     t = r[1]
     s1 = str(t)
     ctx.observe("s1", s1)
+    C.reset()
     r2 = C.outcome(lambda: C.parse(s1, p["std"], p["ic"]))
     if r2[0] != "ok":
-        ctx.fail("printed program rejected: " + r2[0])
+        ctx.fail("printed program rejected (" + r2[0] + ")")
         return
     t2 = r2[1]
     s2 = str(t2)
-    ctx.check(s1 == s2, "str(parse(str(T))) != str(T)")
+    ctx.check(C.strip_trailing_blank_lines(s1) == C.strip_trailing_blank_lines(s2), "str(parse(str(T))) != str(T)")
     ctx.check(C.same_shape(C.shape(t), C.shape(t2)), "parse(str(T)) differs structurally from T")
